@@ -30,7 +30,7 @@ struct RouterSession : Session {
     std::vector<std::map<int, std::vector<Pt>>> txnRoutes;      // per completed transaction: connector id -> displayRoute
     std::vector<std::map<int, double>> txnCosts;                // per completed transaction: connector id -> cost
     std::vector<CbCtx *> cbctx;
-    std::set<int> addedThisTxn, addedJunctionsThisTxn;
+    std::set<int> addedThisTxn, addedJunctionsThisTxn, reshapedThisTxn;
     bool ortho = false, useTransactions = true, costOraclesApply = true, armedPinsGeometry = false;
     bool tunSelective = true, tunInvis = true, tunLees = true;
     bool dead = false, dirty = false, zeroMoveOnly = false;
